@@ -73,3 +73,16 @@ PROPS = {
   "assumptions": COMMON_ASSUME + ["contents of deleted-but-not-collected slots are unspecified; only their flags are judged"],
  },
 }
+
+HOOK_COMMITS = []
+NOT_APPLICABLE = {}
+LEVEL_TEXT = {
+ "C01": {"text": "Runtime exploration: thousands of generated histories over soups, tet and hex complexes in all deletion modes and incidence subsets; after every operation every upward query is compared with a naive scan and the cache arrays are inspected directly, all under ASan+UBSan with range-checked vectors. Held on the executions listed in the evidence, not a proof.",
+         "note": "trusted: edge()/face()/cell()/is_deleted()/n_*() accessors, gcc sanitizer runtimes, the generators' validity guards (no halfface in two live cells)"},
+ "C02": {"text": "Runtime exploration with an executable reference model in id space: every generated base is driven through the same deletion-heavy history in all four (deferred x fast) modes and compared with the model after every step (survivors, definitions, counters, flags, genus).",
+         "note": "trusted: the model's 30-line closure computation, identity carried by monitor-owned tag properties (cross-checked by positions)"},
+ "C03": {"text": "Runtime exploration: shadow copies of every property value keyed by stable entity id (and side) are compared after every step of histories that delete, collect, swap, clear and grow; sizes and default values of fresh slots are checked at the moment of growth.",
+         "note": "trusted: value comparison through a lossless textual representation (%a for doubles); deleted-but-uncollected slots are not judged"},
+ "C17": {"text": "Runtime exploration: every swap is observed at handle level (tags, deletion flags, all property arrays side by side) before/after, repeated (identity) and with equal arguments (no-op), combined with the model and incidence oracles.",
+         "note": "trusted: snapshots read through the public API; contents of deleted slots unspecified"},
+}
